@@ -1,20 +1,43 @@
 ------------------------------ MODULE MC_Serial ------------------------------
-(* Mode A for C06: the in-sync state machine of a rule object.  Loaded objects are in sync with
-   their source; a pipeline transformation that changes values or splits an item puts the item out
-   of sync; ToDict is enabled only when every item is in sync, otherwise ToDictFails.  Invariant:
-   whenever ToDict succeeded, reloading gives an object with the same items (round trip), and an
-   out-of-sync object never produces a dict.                                                   *)
+(* Mode A for C06: the in-sync state machine of a rule object and its metadata.
+
+   Detection items: loaded objects are in sync with their source; a pipeline transformation that
+   changes values or splits an item puts the item out of sync; ToDict is enabled only when every
+   item is in sync, otherwise ToDictFails.  Invariant: whenever ToDict succeeded, reloading gives
+   an object with the same items (round trip), and an out-of-sync object never produces a dict.
+
+   Metadata: a rule carries attributes, each absent (its default) or set.  ToDict writes the set
+   attributes it knows of (constant Written); Reload builds an object from the dict, an attribute
+   the dict does not carry gets its default.  Invariant MetaRoundTrip: the reloaded object has the
+   attributes of the one that was written.  It holds iff Written is the whole attribute set
+   (MC_Serial.cfg); MC_Serial_negative.cfg leaves one attribute out and TLC must refute it.     *)
 EXTENDS Integers, Sequences, FiniteSets, TLC
-VARIABLES items, insync, out, n
-vars == <<items, insync, out, n>>
+CONSTANT Written
+VARIABLES items, insync, out, n, meta, re
+vars == <<items, insync, out, n, meta, re>>
 Vals == {"a", "b"}
-Init == items \in [1..2 -> Vals] /\ insync = [i \in 1..2 |-> TRUE] /\ out = [k |-> "none", d |-> <<>>] /\ n = 0
-Rename(i) == n < 3 /\ n' = n + 1 /\ UNCHANGED <<items, insync>> /\ out' = [k |-> "none", d |-> <<>>]                 \* field-only change keeps sync
-Rewrite(i) == n < 3 /\ n' = n + 1 /\ items' = [items EXCEPT ![i] = "b"] /\ insync' = [insync EXCEPT ![i] = FALSE] /\ out' = [k |-> "none", d |-> <<>>]
-ValueTransform(i) == n < 3 /\ n' = n + 1 /\ items' = [items EXCEPT ![i] = "b"] /\ UNCHANGED insync /\ out' = [k |-> "none", d |-> <<>>]   \* original_value re-synced
-ToDict == n < 4 /\ n' = n + 1 /\ UNCHANGED <<items, insync>> /\ out' = IF \A i \in 1..2 : insync[i] THEN [k |-> "dict", d |-> items] ELSE [k |-> "error", d |-> <<>>]
-Next == (\E i \in 1..2 : Rename(i) \/ Rewrite(i) \/ ValueTransform(i)) \/ ToDict
+Attrs == {"id", "taxonomy", "related", "license", "custom"}
+Default(a) == IF a = "taxonomy" THEN "sigma" ELSE "absent"
+AllAttrs == Attrs
+AllButRelated == Attrs \ {"related"}
+NoneOut == [k |-> "none", d |-> <<>>, m |-> <<>>]
+NoRe == [k |-> "none", d |-> <<>>, m |-> <<>>]
+Init == /\ items \in [1..2 -> Vals] /\ insync = [i \in 1..2 |-> TRUE] /\ out = NoneOut /\ n = 0
+        /\ meta \in [Attrs -> {"dflt", "set"}] /\ re = NoRe
+Val(a, m) == IF m[a] = "dflt" THEN Default(a) ELSE "v"
+Touch == n < 3 /\ n' = n + 1 /\ out' = NoneOut /\ re' = NoRe /\ UNCHANGED meta
+Rename(i) == Touch /\ UNCHANGED <<items, insync>>                                          \* field-only change keeps sync
+Rewrite(i) == Touch /\ items' = [items EXCEPT ![i] = "b"] /\ insync' = [insync EXCEPT ![i] = FALSE]
+ValueTransform(i) == Touch /\ items' = [items EXCEPT ![i] = "b"] /\ UNCHANGED insync       \* original_value re-synced
+ToDict == /\ n < 4 /\ n' = n + 1 /\ UNCHANGED <<items, insync, meta>> /\ re' = NoRe
+          /\ out' = IF \A i \in 1..2 : insync[i]
+                    THEN [k |-> "dict", d |-> items, m |-> [a \in {b \in Written : meta[b] = "set"} |-> "v"]]
+                    ELSE [k |-> "error", d |-> <<>>, m |-> <<>>]
+Reload == /\ out.k = "dict" /\ re.k = "none" /\ UNCHANGED <<items, insync, out, n, meta>>
+          /\ re' = [k |-> "obj", d |-> out.d, m |-> [a \in Attrs |-> IF a \in DOMAIN out.m THEN out.m[a] ELSE Default(a)]]
+Next == (\E i \in 1..2 : Rename(i) \/ Rewrite(i) \/ ValueTransform(i)) \/ ToDict \/ Reload
 Spec == Init /\ [][Next]_vars
 FailsRatherThanLies == out.k # "none" => (out.k = "error" <=> \E i \in 1..2 : ~insync[i])
-RoundTrip == out.k = "dict" => out.d = items
+RoundTrip == (out.k = "dict" => out.d = items) /\ (re.k = "obj" => re.d = items)
+MetaRoundTrip == re.k = "obj" => \A a \in Attrs : re.m[a] = Val(a, meta)
 =============================================================================
